@@ -33,6 +33,7 @@ type Contract struct {
 	HasMod   bool
 	Invs     map[int][]*Clause
 	Steps    map[int][]*Clause // transition invariants: relate the state at a back edge to the state at the loop head (prev)
+	ExitSteps map[int][]*Clause // the same relation, checked on the edges that leave the loop (for bottom-tested loops)
 	Decr     map[int]*Clause
 	FnDecr   *Clause
 	Pure     bool
@@ -200,7 +201,7 @@ func (ss *SpecSet) parseFile(pkg, path, data string) {
 			} else if rc.kw == "functype" {
 				key = "functype:" + pkg + "." + m[1]
 			}
-			cur = &Contract{Key: key, Pkg: pkg, Kind: rc.kw, Invs: map[int][]*Clause{}, Steps: map[int][]*Clause{}, Decr: map[int]*Clause{}, File: path, Line: rc.line}
+			cur = &Contract{Key: key, Pkg: pkg, Kind: rc.kw, Invs: map[int][]*Clause{}, Steps: map[int][]*Clause{}, ExitSteps: map[int][]*Clause{}, Decr: map[int]*Clause{}, File: path, Line: rc.line}
 			cur.Params = splitNames(m[2])
 			cur.Results = splitNames(m[3])
 			if _, dup := ss.Contracts[key]; dup {
@@ -386,6 +387,11 @@ func (ss *SpecSet) parseFile(pkg, path, data string) {
 					if c := mk("step"); c != nil {
 						c.Loop = k
 						cur.Steps[k] = append(cur.Steps[k], c)
+					}
+				case "exitstep":
+					if c := mk("exitstep"); c != nil {
+						c.Loop = k
+						cur.ExitSteps[k] = append(cur.ExitSteps[k], c)
 					}
 				default:
 					ss.errf(path, rc.line, "unknown loop clause %q", f[1])
